@@ -12,6 +12,8 @@ CONSTANTS Loc,       \* Loc[a] : sequence of host addresses of agent a
           PreSignal, \* PreSignal[a] : the remote candidates a already holds when checks start
           MaxReq, MaxTicks, MaxLoss, MaxDup, MaxFlight, MaxInject, MaxRestart,
           D, F, K, H,  \* disconnected / failed timeouts, keepalive interval (0 = off), transaction lifetime
+          DD, DC,      \* per agent: the disconnected timeout in effect, and the disconnected part of the initial checking deadline
+                       \* (both D unless a lite agent keeps its defaults: then 10 s resp. the full agent's 5 s)
           Acc,         \* Acc[typ] : acceptance minimum wait per candidate type
           Steps, MaxTime,  \* clock increments offered to Advance, horizon
           NomBase, NomStep, \* nomination values issued are NomBase + 1, NomBase + 1 + NomStep, NomBase + 1 + 2*NomStep, ...
@@ -123,8 +125,8 @@ Send1(a, p, uc) ==   \* one request on pair p
   /\ nextTid' = [nextTid EXCEPT ![a] = @ + 1]
 \* connection state as a function of the selected remote's silence (connectionStateForDisconnection)
 StateFor(a, silence) ==
-  LET total == IF F = 0 THEN 0 ELSE F + D
-      disc == D # 0 /\ silence > D
+  LET total == IF F = 0 THEN 0 ELSE F + DD[a]
+      disc == DD[a] # 0 /\ silence > DD[a]
       fail == total # 0 /\ silence > total
   IN IF fail THEN (IF disc /\ conn[a] \notin {"Disconnected", "Failed"} THEN "Disconnected" ELSE "Failed")
      ELSE IF disc THEN "Disconnected" ELSE "Connected"
@@ -139,7 +141,7 @@ Tick(a) ==
   /\ ticks' = [ticks EXCEPT ![a] = @ + 1]
   /\ LET ps == pairs[a]
          cs == IF conn[a] = "Checking" /\ lastTick[a] # "Checking" THEN now ELSE chkStart[a]
-         deadline == IF F = 0 THEN 0 ELSE D + F
+         deadline == IF F = 0 THEN 0 ELSE DC[a] + F
      IN
      /\ chkStart' = [chkStart EXCEPT ![a] = cs]
      /\ IF conn[a] = "Failed" THEN
@@ -451,7 +453,7 @@ Lifecycle == [][\A a \in Agents : conn'[a] # conn[a] =>
                  \/ conn'[a] = "Closed" \/ <<conn[a], conn'[a]>> = <<"New", "Checking">>
                  \/ <<conn[a], conn'[a]>> \in {<<"Checking","Connected">>, <<"Checking","Failed">>, <<"Connected","Disconnected">>,
                                                <<"Disconnected","Connected">>, <<"Disconnected","Failed">>}
-                 \/ (<<conn[a], conn'[a]>> = <<"Connected","Failed">> /\ D = 0)
+                 \/ (<<conn[a], conn'[a]>> = <<"Connected","Failed">> /\ DD[a] = 0)
                  \/ (conn'[a] = "Checking" /\ gen'[a] # gen[a])]_vars
 View == <<role, gen, rgen, locals, remotes, pairs, nextId, pend, sel, nomPair, conn, nextTid, net, ticks, loss, dup, inj, rst, now, lastRx, selStart, chkStart, lastTick, gath, lastNom, nomGen, dnet, wr>>
 ====
